@@ -1080,7 +1080,7 @@ class Interp:
         if isinstance(node, ast.Tuple):
             return [self.eval_index_item(e, env) for e in node.elts]
         it = self.eval_index_item(node, env)
-        if isinstance(it, Tup) and it.kind == "tuple" and all(isinstance(x, Expr) or x is None for x in it.items):
+        if isinstance(it, Tup) and it.kind == "tuple" and all(isinstance(x, (Expr, SliceV)) or x is None or x is Ellipsis for x in it.items):
             return list(it.items)  # a[t] with t a tuple indexes one axis per entry
         return [it]
 
@@ -1499,6 +1499,7 @@ class Interp:
                 raise AnalysisError("%s:%d: tuple index out of range" % (self.cur_mod.name, node.lineno))
         if isinstance(base, Arr):
             idx = self.eval_index(node.slice, env)
+            self.cur_node = node
             r = self.np.load(self, base, idx, node, env)
             if isinstance(r, Arr) and not any(isinstance(i, Arr) for i in idx):
                 # basic indexing: numpy hands out a view of the same memory
@@ -1803,7 +1804,7 @@ BUILTINS = {
     "len", "int", "float", "max", "min", "range", "tuple", "list", "str", "isinstance", "getattr", "abs",
     "enumerate", "zip", "sum", "bool", "dict", "set", "sorted", "print", "any", "all", "ValueError",
     "RuntimeError", "FileNotFoundError", "TypeError", "Exception", "hasattr", "round", "open", "repr", "type",
-    "complex", "reversed", "map", "id", "next", "iter", "KeyError", "IndexError", "ImportError",
+    "complex", "reversed", "map", "id", "next", "iter", "slice", "KeyError", "IndexError", "ImportError",
 }
 
 EXT_MODULES = {"numpy", "np", "math", "scipy", "numba", "pyfftw", "os", "logging", "warnings", "hashlib", "pathlib",
